@@ -831,6 +831,20 @@ theorem loop_le (recursive : Bool) (keep : T → Bool) : ∀ (f : Nat) (t t' : T
         · injection h with h; subst h; exact dropLeaves_le keep t i
         · exact Nat.le_trans (loop_le recursive keep f _ t' h i) (dropLeaves_le keep t i)
 
+theorem pruneUp_le : ∀ (f c : Nat) (t : T) (i : Nat), cnt i (pruneUp f c t) ≤ cnt i t
+  | 0, c, t, i => by
+      simp only [pruneUp]; exact splice_le c (fun _ => []) (by intro y k; simp) t i
+  | f + 1, c, t, i => by
+      have h1 := splice_le c (fun _ => []) (by intro y k; simp) t i
+      simp only [pruneUp]
+      split
+      · exact Nat.le_refl _
+      · split
+        · split
+          · exact Nat.le_trans (pruneUp_le f _ _ i) h1
+          · exact h1
+        · exact h1
+
 theorem pruneNoTaxa_le (r ub sp : Bool) (s : St) (i : Nat) : cnt i (pruneNoTaxa r ub sp s).t ≤ cnt i s.t := by
   unfold pruneNoTaxa
   apply Nat.le_trans (finish_le _ _ _ i)
@@ -1074,8 +1088,7 @@ theorem step_wf (s s' : St) (op : Op) (h : WF s.t) (hop : op.SubWF) (hs : step s
       split at hs
       · cases hs
       · injection hs with hs; subst hs
-        exact wf_of_le h (fun i => Nat.le_trans (finish_le _ _ _ i)
-          (splice_le c (fun _ => []) (by intro y k; simp) s.t i))
+        exact wf_of_le h (fun i => Nat.le_trans (finish_le _ _ _ i) (pruneUp_le _ c s.t i))
   | filterLeaves keep r ub sp =>
     simp only [step] at hs
     unfold filterLeaves at hs
